@@ -14,14 +14,14 @@ for f in sorted(glob.glob(os.path.join(d, "*.txt"))):
         mm = re.match(r"(\S+) (C\d\d) rc=(\d+) violations=(\d+)\s*(.*)", l)
         if mm and mm.group(1) == name:
             checks[mm.group(2)] = (int(mm.group(3)), int(mm.group(4)), mm.group(5).strip())
-    if len(checks) < 20:
-        print(name, "incomplete:", len(checks), "checks")
+    if not checks:
         continue
     caught = sorted(k for k, v in checks.items() if v[0] == 1)
     m["caught_by_quick_checks"] = caught
     m["inconclusive_quick_checks"] = sorted(k for k, v in checks.items() if v[0] == 2)
     m["caught_by_owner_property_check"] = m["breaks_property"] in caught
     m["first_violation_per_check"] = {k: checks[k][2][:220] for k in caught}
-    m["matrix_ran"] = "tools/matrix_parallel.sh (every quick check against a scratch worktree of /repo's HEAD with the patch applied)"
+    m["matrix_ran"] = "tools/matrix_parallel.sh (quick checks against a scratch worktree of /repo's HEAD with the patch applied)"
+    m["matrix_checks_run"] = sorted(checks)
     json.dump(m, open(mp, "w"), indent=1)
     print(name, "caught by", caught, "inconclusive", m["inconclusive_quick_checks"])
